@@ -1,4 +1,5 @@
 """Symbolic execution of go/ssa functions into named proof obligations (passive, block-based encoding)."""
+import re
 import z3
 from .world import OutOfSubset, LValue, FuncVal
 from .heap import Heap, Verifier
@@ -373,6 +374,14 @@ class Exec:
                                 rsv_.append(None)
                         evR = SpecEval(V, self.pkg, env_r, self.heap, old=self.top_entry_heap(), results=rsv_)
                         for (lab, ast, txt) in self.contract['returns']:
+                            mql_ = re.search(r'@L(\d+)$', lab or '')
+                            if mql_:
+                                lpq_ = [(h_, l) for h_, l in self.cfg['loops'].items() if l['ordinal'] == int(mql_.group(1))]
+                                # a return leaves the loop, so it is never in the natural loop body: it belongs to loop k
+                                # when a body block other than the head dominates it (code after the loop is dominated
+                                # by the head only)
+                                if not lpq_ or not any(x_ != lpq_[0][0] and x_ in self.cfg['dom'][b] for x_ in lpq_[0][1]['body']):
+                                    continue
                             try:
                                 self.oblige('return', evR.boolean(ast), ins_.get('pos', ''), label=lab or '0', text=txt)
                                 V.return_clause_sites = getattr(V, 'return_clause_sites', {})
